@@ -23,12 +23,14 @@ Lemma ty_ind2 (P : ty -> Prop) :
   (forall n r args, Forall P args -> P (UName n r args)) ->
   (forall items, Forall P items -> P (UList items)) ->
   (forall items, Forall P items -> P (UUnion items)) ->
+  (forall u, P u -> P (UQuoted u)) ->
   P UEll -> (forall s, P (ULit s)) -> forall t, P t.
 Proof.
-  intros H1 H2 H3 H4 H5. fix IH 1. intros [n r args|items|items| |s].
+  intros H1 H2 H3 H6 H4 H5. fix IH 1. intros [n r args|items|items|u| |s].
   - apply H1. induction args; constructor; [apply IH|assumption].
   - apply H2. induction items; constructor; [apply IH|assumption].
   - apply H3. induction items; constructor; [apply IH|assumption].
+  - apply H6, IH.
   - exact H4.
   - apply H5.
 Qed.
@@ -41,16 +43,32 @@ Proof.
   apply in_flat_map. exists t. split; assumption.
 Qed.
 
+(* the quotes put back around an argument add no name and hide none: the names between them are those of the visited type *)
+Definition qarg (a : ty) : list tok := match a with UQuoted u => KQ :: print_ty u ++ [KQ] | _ => print_ty a end.
+Lemma qarg_names : forall a x, In x (names_of (qarg a)) -> In x (names_of (print_ty a)).
+Proof.
+  intros a x H. destruct a; try exact H. cbn [qarg print_ty] in *. simpl in H.
+  unfold names_of in H. rewrite flat_map_app in H. apply in_app_or in H as [H|H]; [exact H|simpl in H; contradiction].
+Qed.
+Lemma in_sub_names_q : forall (l : list ty) x, Forall (fun t => forall x, In x (names_of (print_ty t)) -> In x (required_of t) \/ x = "None"%string) l ->
+  (exists p, In p (map qarg l) /\ In x (names_of p)) -> In x (flat_map required_of l) \/ x = "None"%string.
+Proof.
+  intros l x F (p & Hp & Hx). apply in_map_iff in Hp as (t & <- & Ht).
+  apply (in_sub_names l x F). exists (print_ty t). split; [apply in_map; exact Ht|apply qarg_names; exact Hx].
+Qed.
+
 (* every name token of the printed annotation was required, except the literal None produced for Optional *)
 Lemma printed_names_required : forall t x, In x (names_of (print_ty t)) -> In x (required_of t) \/ x = "None"%string.
 Proof.
-  induction t as [n r args IH|items IH|items IH| |s] using ty_ind2; intros x H.
-  - cbn [print_ty required_of] in *. destruct r as [| | |new].
-    + unfold subscript in H. destruct (map print_ty args) eqn:E.
+  induction t as [n r args IH|items IH|items IH|u IHu| |s] using ty_ind2; intros x H.
+  - cbn [print_ty required_of] in *.
+    change (map (fun a => match a with UQuoted u => KQ :: print_ty u ++ [KQ] | _ => print_ty a end) args) with (map qarg args) in H.
+    destruct r as [| | |new].
+    + unfold subscript in H. destruct (map qarg args) eqn:E.
       * simpl in H. destruct H as [<-|[]]. left. left. reflexivity.
       * rewrite <- E in H. simpl in H. destruct H as [<-|H]; [left; left; reflexivity|].
         unfold names_of in H. rewrite flat_map_app in H. apply in_app_or in H as [H|H]; [|simpl in H; contradiction].
-        destruct (in_sub_names args x IH (names_join KComma _ I x H)) as [G|G]; [left; right; exact G|right; exact G].
+        destruct (in_sub_names_q args x IH (names_join KComma _ I x H)) as [G|G]; [left; right; exact G|right; exact G].
     + apply (in_sub_names args x IH). apply (names_join KBar _ I x H).
     + destruct args as [|a [|b l]]; cbn [map] in H.
       * simpl in H. destruct H as [<-|[]]. left. left. reflexivity.
@@ -59,15 +77,16 @@ Proof.
            simpl. rewrite app_nil_r. exact G.
         -- simpl in H. destruct H as [<-|[]]. right. reflexivity.
       * simpl in H. destruct H as [<-|[]]. left. left. reflexivity.
-    + unfold subscript in H. destruct (map print_ty args) eqn:E.
+    + unfold subscript in H. destruct (map qarg args) eqn:E.
       * simpl in H. destruct H as [<-|[]]. left. left. reflexivity.
       * rewrite <- E in H. simpl in H. destruct H as [<-|H]; [left; left; reflexivity|].
         unfold names_of in H. rewrite flat_map_app in H. apply in_app_or in H as [H|H]; [|simpl in H; contradiction].
-        destruct (in_sub_names args x IH (names_join KComma _ I x H)) as [G|G]; [left; right; exact G|right; exact G].
+        destruct (in_sub_names_q args x IH (names_join KComma _ I x H)) as [G|G]; [left; right; exact G|right; exact G].
   - cbn [print_ty required_of] in *. simpl in H. unfold names_of in H. rewrite flat_map_app in H.
     apply in_app_or in H as [H|H]; [|simpl in H; contradiction].
     apply (in_sub_names items x IH). apply (names_join KComma _ I x H).
   - cbn [print_ty required_of] in *. apply (in_sub_names items x IH). apply (names_join KBar _ I x H).
+  - cbn [print_ty required_of] in *. exact (IHu x H).
   - simpl in H. contradiction.
   - simpl in H. contradiction.
 Qed.
